@@ -30,7 +30,7 @@ ASSUMPTIONS = ["first column compared with the requested initial state cast to t
                "positivity: a value of exactly 0 is accepted for exponential-type prices only as underflow, i.e. when no neighbour on the same "
                "path exceeds 1e-20",
                "half precisions: only default-scale parameters; missing CPU kernels (NotImplementedError / 'not implemented for') are tolerated and counted"]
-PROBES = ["simulate_aborted", "generator_aborted", "qe_psi_le_1.5", "qe_psi_gt_1.5", "init_nondefault", "init_default", "resim_shape_change", "via_derivative",
+PROBES = ["float64_accuracy_checked", "simulate_aborted", "generator_aborted", "qe_psi_le_1.5", "qe_psi_gt_1.5", "init_nondefault", "init_default", "resim_shape_change", "via_derivative",
           "via_compute_loss", "via_price", "via_fit", "via_lazy_materialisation", "default_dtype_flip", "cast_then_simulate",
           "n_steps_1", "n_steps_2", "half_precision", "half_kernel_missing", "generator_direct", "float64", "volatility_checked_after_cast", "init_bare_scalar"]
 BUFFERS = {"BrownianStock": ["spot"], "HestonStock": ["spot", "variance"], "CIRRate": ["spot"], "VasicekRate": ["spot"],
@@ -307,6 +307,18 @@ class SimWatcher:
             if qe_branches(v, self.params.get("kappa", 1.0), self.params.get("theta", 0.04), self.params.get("sigma", 0.2),
                            self.params["dt"], st):
                 hz.append("psi>1.5")
+        # a float64 series computed in single precision and widened afterwards carries float32 accuracy only: every value
+        # would be exactly representable in float32 (for honest float64 values the chance is 2^-29 each)
+        if dtype == torch.float64:
+            for n_, b_ in bufs.items():
+                if b_.dim() == 2 and b_.shape[1] >= 3 and b_.dtype == torch.float64:
+                    body = b_[:, 1:]
+                    body = body[(body != 0) & torch.isfinite(body) & (body != b_[:, :1].expand_as(b_[:, 1:]))]
+                    st.checks += 1
+                    if body.numel() >= 8 and bool((body.float().double() == body).all()):
+                        raise Violation(ID, "float64_series_with_float32_accuracy", site, {
+                            "buffer": n_, "values": body[:6], "note": "every value of the float64 buffer is exactly a float32 number"}, seq)
+                    st.probe("float64_accuracy_checked")
         # replaced entirely
         for n, ref in old_refs.items():
             st.checks += 1
